@@ -21,6 +21,11 @@ class Decls:
         self.axioms = []     # global axioms (about UFs), list of (term, note)
         self.bound = []      # bound Int variables currently in scope
         self.base_heap = {}  # attr -> name of the initial heap array (shared by all snapshots of a run)
+        self.plain = set()   # assumptions of the path made without guards (for de-duplication)
+        self.guarded = {}    # assumption -> guard stacks it was recorded under
+        self.guard_pending = {}   # guard name -> condition whose definition has not been emitted yet
+        self.guard_raw = []  # the same conditions as written (guards holds short names defined equal to them)
+        self.guards = []     # conditions of the un-forked branches being evaluated (spec if/else, and/or chains): facts assumed there hold under them only
 
     def const(self, base, sort, exact=False):
         """fresh symbol; inside a quantified body (comprehension / forall) it is a fresh *function* of the
@@ -35,6 +40,11 @@ class Decls:
     def global_const(self, base, sort):
         name = fresh_name(base)
         self.consts[name] = sort
+        return name
+
+    def fresh_fun(self, base, argsorts, ressort):
+        name = fresh_name(base)
+        self.funs[name] = (tuple(argsorts), ressort)
         return name
 
     def bound_var(self, base):
@@ -104,10 +114,21 @@ class State:
     def assume(self, term, kind='pc'):
         if term == smt.TRUE:
             return
+        if self.decls.guards and kind != 'def':
+            # a typing fact about the fields of an object holds because of the object's class (the schema): it is recorded as
+            # "class of the object is one of ... => fact", so that it stays true when the object was only *narrowed* to that
+            # class inside a branch that is merged by ite rather than forked
+            term = smt.mk_implies(smt.mk_and(*self.decls.guards), term)
         for t, _ in self.pc:
             if t == term:
                 return
         self.pc.append((term, kind))
+
+    def push_guard(self, c):
+        self.decls.guards.append(c)
+
+    def pop_guard(self):
+        self.decls.guards.pop()
 
     def oblige(self, goal, note, lineno=0, kind='safety'):
         if self.mute:
@@ -116,6 +137,11 @@ class State:
             if kind in ('ensures', 'invariant', 'requires', 'raises'):
                 # discharged syntactically by the term simplifier: recorded so that it is counted
                 self.obligations.append(Obligation(goal, [], note, lineno, kind))
+            return
+        if self.decls.guards:
+            # an operand python evaluates only when the earlier (un-forked) operands allowed it
+            g = smt.mk_and(*self.decls.guards)
+            self.obligations.append(Obligation(smt.mk_implies(g, goal), list(self.pc), note, lineno, kind))
             return
         if goal.startswith('(and '):
             parts = smt.split_top(goal[5:-1])
